@@ -54,6 +54,9 @@ func c15Case(scopes map[string]string) *Case {
 		cmd(),
 	}
 	script := &Script{Name: sname, Scope: scopes["script"], Body: body}
+	ename := atoms.New(ClsUserName, "emptyscript", "names")
+	emptyScript := &Script{Name: ename, Scope: scopes["script"]} // no statements at all
+	typeInlineEmpty := atoms.New(ClsIdent, "mstype", "mstypes")
 	text := &TextTop{Name: tname, Scope: scopes["text"], Lits: []*StrLit{{Parts: []Tok{L("abc")}}}}
 	mov := &MovementTop{Name: mname, Scope: scopes["movement"], Steps: []*Step{{Name: L("walk_down")}}}
 	mart := &MartTop{Name: martname, Scope: scopes["mart"], Items: []*Step{{Name: L("ITEM_X")}}}
@@ -63,9 +66,11 @@ func c15Case(scopes map[string]string) *Case {
 		{Type: typeTable, Kind: "table", Rows: []*MapRow{
 			{Cond: []Tok{L("VAR_A")}, Value: []Tok{L("1")}, Label: rowTarget},
 			{Cond: []Tok{L("VAR_B")}, Value: []Tok{L("2")}, Body: []Stmt{cmd()}},
+			{Cond: []Tok{L("VAR_C")}, Value: []Tok{L("3")}, Body: nil},
 		}},
+		{Type: typeInlineEmpty, Kind: "inline", Body: nil},
 	}}
-	prog := &Program{Atoms: atoms, Tops: []interface{}{script, text, mov, mart, ms}}
+	prog := &Program{Atoms: atoms, Tops: []interface{}{script, text, mov, mart, ms, emptyScript}}
 	isGlobal := func(kind, dflt string) bool {
 		s := scopes[kind]
 		if s == "" {
@@ -77,6 +82,7 @@ func c15Case(scopes map[string]string) *Case {
 	cs.Oracle = func(x *OracleCtx) *Violation {
 		exp := []expLabel{
 			{"script", sname.Val, isGlobal("script", "global")},
+			{"script with an empty body", ename.Val, isGlobal("script", "global")},
 			{"text", tname.Val, isGlobal("text", "global")},
 			{"movement", mname.Val, isGlobal("movement", "local")},
 			{"mart", martname.Val, isGlobal("mart", "local")},
@@ -94,7 +100,7 @@ func c15Case(scopes map[string]string) *Case {
 		// Everything else the output defines is a label the compiler invented
 		// (sub-labels, hoisted text and movement, inline map scripts, tables):
 		// whatever it is called, it must be local. At least 5 such labels must
-		// exist (text, movement, inline script, table, row script).
+		// exist (text, movement, two inline scripts, table, two row scripts).
 		for _, v := range x.Case.Variants {
 			res := x.Res[v.Name]
 			if res.Err.Panic != "" || res.Err.IsErr {
@@ -123,8 +129,8 @@ func c15Case(scopes map[string]string) *Case {
 					}
 				}
 			}
-			if generated < 5 {
-				return &Violation{Sub: "scope", Msg: fmt.Sprintf("variant %s: only %d generated labels are defined; the hoisted text, the hoisted movement, the inline map script, the table and the row script need one each", v.Name, generated)}
+			if generated < 7 {
+				return &Violation{Sub: "scope", Msg: fmt.Sprintf("variant %s: only %d generated labels are defined; the hoisted text, the hoisted movement, the two inline map scripts, the table and the two row scripts need one each", v.Name, generated)}
 			}
 			for i, e := range exp {
 				if seen[i] != 1 {
@@ -167,7 +173,7 @@ func RunC15(env *Env, rep *Report) {
 		}
 	}
 	rep.Technique = "symbolic execution of the real parser and emitter (go/ssa) with all names symbolic; structural assertions on the label definition lines of the output rope"
-	rep.Explanation = "Bounded symbolic verification of a finite property. One program containing every top-level statement kind (script with unmarked, (global) and (local) labels inside branches and loops, inline text, moves(), text, movement, mart, mapscripts with plain, inline and table entries) is compiled by symbolic execution for every listed combination of scope modifiers, with all names symbolic and -optimize on and off. Every label definition line of the output must be one of the expected entities with the expected '::' / ':' or a generated sub-label with ':'; every expected entity must be defined exactly once. The space {statement kind} x {no modifier, global, local} x {generated label kinds} is covered completely by the thorough tier (3^5 combinations) and one-at-a-time by the quick tier."
+	rep.Explanation = "Bounded symbolic verification of a finite property. One program containing every top-level statement kind (script with unmarked, (global) and (local) labels inside branches and loops, inline text, moves(), a script with an empty body, text, movement, mart, mapscripts with plain, inline - also empty - and table entries with plain, inline and empty inline rows) is compiled by symbolic execution for every listed combination of scope modifiers, with all names symbolic and -optimize on and off. Every label definition line of the output must be one of the expected entities with the expected '::' / ':' or a generated sub-label with ':'; every expected entity must be defined exactly once. The space {statement kind} x {no modifier, global, local} x {generated label kinds} is covered completely by the thorough tier (3^5 combinations) and one-at-a-time by the quick tier."
 	rep.Bounds = map[string]interface{}{"combinations": len(cases), "program": "one fixed program shape containing every label-producing construct"}
 	rep.Outside = []string{"other program shapes (the scope of a label does not depend on the shape in the code, but that is not proved)"}
 	rep.Assumptions = []string{"names are pairwise distinct identifiers; label names do not end in _<digits>"}
